@@ -331,6 +331,46 @@ impl G {
     }
 
     /// Rename leaves left to right (a0, a1, ... / 0, 1, ...) so that operand order is observable.
+    /// visits every identifier / integer leaf in source order
+    pub fn map_leaves(&mut self, f: &mut dyn FnMut(&mut G)) {
+        match self {
+            G::Ident(_) | G::Int(_) => f(self),
+            G::Lit(..) => {}
+            G::Cond(a, b, d) => {
+                a.map_leaves(f);
+                b.map_leaves(f);
+                d.map_leaves(f);
+            }
+            G::Bin(_, a, b) | G::Index(a, b) => {
+                a.map_leaves(f);
+                b.map_leaves(f);
+            }
+            G::Not(a) | G::Neg(a) | G::Select(a, _) => a.map_leaves(f),
+            G::Method(x, _, args) => {
+                x.map_leaves(f);
+                for a in args {
+                    a.map_leaves(f);
+                }
+            }
+            G::Call(_, args) | G::List(args) => {
+                for a in args {
+                    a.map_leaves(f);
+                }
+            }
+            G::Map(es) => {
+                for (a, b) in es {
+                    a.map_leaves(f);
+                    b.map_leaves(f);
+                }
+            }
+            G::Struct(_, fs) => {
+                for (_, b) in fs {
+                    b.map_leaves(f);
+                }
+            }
+        }
+    }
+
     pub fn number_leaves(&mut self, prefix: &str, c: &mut u64) {
         match self {
             G::Ident(n) => {
